@@ -250,6 +250,82 @@ theorem symbol_text_roundtrip (a : Bytes) (h : a.length = 24) :
     rw [this, base32_roundtrip _ hl]
     simp [byteArray, h]
 
+/-- the other direction for Symbol (text -> bytes -> text), which is *not* the identity: the 39th character
+    carries two address bits and three filler bits that `Address(str)` discards. Printing the parsed address gives the
+    string back with the filler bits of its last character cleared; so every address has eight accepted spellings and
+    the canonical one is the one whose last digit is a multiple of eight (`A`, `I`, `Q` or `Y`). -/
+theorem symbol_parse_print (s : List Char) (a : Bytes) (h : addressOfString symbolKind s = some a) :
+    ∃ d, d < 32 ∧ s.getLast?.bind valOf = some d ∧
+      addressToString symbolKind a = s.dropLast ++ [charOf (d / 8 * 8)] ∧
+      (addressToString symbolKind a = s ↔ d % 8 = 0) := by
+  simp only [addressOfString, symbolKind, if_true] at h
+  cases hd : decode32 (s ++ ['A']) with
+  | none => simp [hd] at h
+  | some b =>
+    simp only [hd, Option.map_some] at h
+    obtain ⟨rfl, ha24⟩ := byteArray_some h
+    obtain ⟨henc, hbl⟩ := encode32_decode32 _ _ hd
+    have hb25 : b.length = 25 := by
+      simp only [List.length_dropLast] at ha24
+      omega
+    have hsplit : b = b.take 20 ++ b.drop 20 := (List.take_append_drop _ _).symm
+    have hx : (b.take 20).length = 5 * 4 := by simp [List.length_take, hb25]
+    have ht : (b.drop 20).length = 5 := by simp [List.length_drop, hb25]
+    generalize b.take 20 = x at hsplit hx
+    generalize b.drop 20 = t at hsplit ht
+    subst hsplit
+    match t, ht with
+    | [w, x', y, z, v], _ =>
+      -- the string is the encoding of the 25 decoded bytes
+      have e5 : ∀ u : UInt8, encode32 [w, x', y, z, u] = encGroup [w, x', y, z, u] := by intro u; simp [encode32]
+      rw [encode32_append_aux 4 x _ hx, e5, encGroup_split] at henc
+      have hn : beNat [w, x', y, z, v] = 256 * beNat [w, x', y, z] + v.toNat := beNat_snoc [w, x', y, z] v
+      have hn0 : beNat [w, x', y, z, 0] = 256 * beNat [w, x', y, z] := by
+        have := beNat_snoc [w, x', y, z] 0
+        simpa using this
+      generalize hm : beNat [w, x', y, z] = m at hn hn0
+      generalize hN : beNat [w, x', y, z, v] = N at hn henc
+      have hv := v.toNat_lt
+      have reassoc : ∀ (p q : List Char) (c1 c2 : Char), p ++ (q ++ [c1, c2]) = (p ++ q ++ [c1]) ++ [c2] := by
+        intro p q c1 c2; simp
+      rw [reassoc] at henc
+      obtain ⟨hs, hA⟩ := List.append_singleton_inj.1 henc
+      have he0 : N % 32 = 0 := by
+        have hA' : charOf (N % 32) = charOf 0 := by rw [hA]; decide
+        exact charOf_inj (Nat.mod_lt _ (by decide)) (by decide) hA'
+      have hd1 : N / 32 % 32 < 32 := Nat.mod_lt _ (by decide)
+      refine ⟨N / 32 % 32, hd1, ?_, ?_⟩
+      · rw [← hs, List.getLast?_concat]
+        exact valOf_charOf _ hd1
+      -- printing the 24 bytes
+      have hdrop : (x ++ [w, x', y, z, v]).dropLast = x ++ [w, x', y, z] := by
+        rw [show x ++ [w, x', y, z, v] = (x ++ [w, x', y, z]) ++ [v] from by simp, List.dropLast_concat]
+      rw [hdrop]
+      have hlen4 : (x ++ [w, x', y, z]).length % 5 = 4 := by simp [hx]
+      obtain ⟨_, f2⟩ := symbol_str_zero_byte_form (x ++ [w, x', y, z]) hlen4
+      rw [show (x ++ [w, x', y, z]) ++ [0] = x ++ [w, x', y, z, 0] from by simp,
+        encode32_append_aux 4 x _ hx, e5, encGroup_split, hn0] at f2
+      have a1 : 256 * m / 1024 = N / 1024 := by omega
+      have a2 : 256 * m / 32 % 32 = N / 32 % 32 / 8 * 8 := by omega
+      have a3 : 256 * m % 32 = 0 := by omega
+      rw [a1, a2, a3, reassoc] at f2
+      have hA0 : charOf 0 = 'A' := by decide
+      rw [hA0] at f2
+      have hprint := List.append_cancel_right f2
+      have hdl : s.dropLast = encode32 x ++ (digitsLE 32 6 (N / 1024)).reverse.map charOf := by
+        rw [← hs, List.dropLast_concat]
+      refine ⟨by rw [hdl]; exact hprint, ?_⟩
+      rw [hprint]
+      conv => lhs; rw [← hs]
+      rw [List.append_right_inj]
+      constructor
+      · intro hc
+        have := charOf_inj (by omega) hd1 (List.cons.inj hc).1
+        omega
+      · intro h8
+        have : N / 32 % 32 / 8 * 8 = N / 32 % 32 := by omega
+        rw [this]
+
 /-- NEM: 25 bytes -> 40 alphabet characters -> the same 25 bytes. -/
 theorem nem_text_roundtrip (a : Bytes) (h : a.length = 25) :
     (addressToString nemKind a).length = 40 ∧
@@ -436,6 +512,9 @@ example : encode32 [0x68, 1, 2, 3, 4] = "NAAQEAYE".toList ∧ decode32 "NAAQEAYE
 example : decode32 "naaqeaye".toList = none ∧ decode32 "NAAQEAY=".toList = none ∧ decode32 "NAAQEAY".toList = none := by decide
 example : encode32 [0, 0x11, 0x22, 0x33] = "AAISEMY=".toList := by decide
 example : (List.replicate 24 (0 : UInt8)).length % 5 = 4 := by decide
+/-- `symbol_parse_print` is not vacuous: a non-canonical spelling parses, and prints back canonically. -/
+example : addressOfString symbolKind (List.replicate 38 'A' ++ ['H']) = some (List.replicate 24 0) ∧
+    addressToString symbolKind (List.replicate 24 0) = List.replicate 39 'A' := by decide
 example : (addressToString symbolKind (List.replicate 24 0x68)).length = 39 := by decide
 /-- hypotheses of `address_def` are satisfiable (constant-length stand-ins for the hashes) and its conclusion is a real address. -/
 example : ∃ a, publicKeyToAddress (fun _ => List.replicate 32 7) (fun _ => List.replicate 20 9) symbolKind 0x68 [] = some a ∧
